@@ -204,6 +204,8 @@ def match_known(v: Dict[str, Any], known: List[Dict[str, Any]]) -> Optional[Dict
             continue
         if "clause" in k and "properties" not in k and k["clause"] != v.get("clause"):
             continue
+        if "clauses" in k and v.get("clause") not in k["clauses"]:
+            continue
         sig = v.get("signature") or {}
         ks = k.get("signature") or {}
         if "type" in ks and ks["type"] != sig.get("type"):
